@@ -25,7 +25,9 @@ RULE = (
 ASSUMPTIONS = [
     "subject is the pure-Python implementation (no compiled extension can be rebuilt offline)",
     "reference decoder/normaliser in vf/ref is the oracle (self-checked at start)",
-    "schema depth <= 5, <= 40 nodes; data <= ~64 KiB per value",
+    "schema depth <= 5, <= 40 nodes; data <= ~70 KB per value",
+    "a union default is generated for a later branch only when no earlier branch fits its JSON type (the default then belongs to that branch under every reading); defaults that reach an enclosing recursive type are not generated",
+    "15% of the random cases run with tuple notation switched off (tuples are plain sequences, no hints)",
 ]
 SENTINEL = b"\xa5SENTINEL\x5a\x00\x01\x02\x03"
 N = {"quick": 160000, "thorough": 2400000}
